@@ -195,6 +195,28 @@ Theorem anend_releases_every_annotation_type :
 Proof. exact anend_releases_every_type_lemma. Qed.
 Print Assumptions anend_releases_every_annotation_type.
 
+(** The two switches of mfan.c between annotation types and tags are inverse to each other: the tag ANIcreate gives a
+    new annotation of type t is mapped back to t by ANtagref2id (both tables regenerated from the source), so the id
+    ANtagref2id issues for a tag/ref is looked up in the tree of the annotation's own type. *)
+Theorem antagref2id_inverts_create : forall t tag,
+  In (t, tag) ANIcreate_type_to_tag -> aget tag ANtagref2id_tag_to_type = Some t.
+Proof. exact antagref2id_inverts_create_lemma. Qed.
+Print Assumptions antagref2id_inverts_create.
+
+(** A write attachment of a Vdata is exclusive.  VSattach's two tests are the unconditional ones (regenerated from
+    vio.c), and the handle table judges accordingly: while an id of the Vdata is attached under a file id, an id issued
+    for writing is a violation (code 7), an id issued for reading is one if the live attachment is for writing, and a
+    refusal is always admissible. *)
+Theorem write_attach_is_exclusive : forall t parent p sub ok id id0 h0,
+  hget KFile parent t = Some p -> aget id0 t = Some h0 -> hk h0 = KVs -> hparent h0 = parent ->
+  hobj h0 = 100 * hobj p + sub ->
+  VSattach_write_refused_whenever_attached = 1 /\ VSattach_read_refused_while_written = 1 /\
+  fst (h_step (CIssue KVs parent KFile sub ok 1) (AOk id) t) = VBad 7 /\
+  (hmode h0 = 1 -> fst (h_step (CIssue KVs parent KFile sub ok 0) (AOk id) t) = VBad 7) /\
+  fst (h_step (CIssue KVs parent KFile sub ok 1) AFail t) = VOk.
+Proof. exact write_attach_is_exclusive_lemma. Qed.
+Print Assumptions write_attach_is_exclusive.
+
 (** Non-vacuity: the hypotheses are met by concrete non-trivial states / histories. *)
 Example init_state_related : Rel m_init s_init.
 Proof. exact Rel_init. Qed.
@@ -243,5 +265,12 @@ Example denied_reopen_state :
   (exists r fr, rec_of_path 1 st = Some (r, fr) /\ (0 <? Z.land DFACC_WRITE DFACC_WRITE) && (Z.land (faccess fr) DFACC_WRITE =? 0) = true) /\
   fst (f_run [FOpenDenied 1 DFACC_WRITE; FInq 0; FEnd 1; FClose 0] st) = [RFail; ROk 1; ROk 0; ROk 0].
 Proof. vm_compute. split; [eexists; eexists; split; reflexivity|reflexivity]. Qed.
+Example exclusive_attach_state :
+  let t := [(50, mkH KVs 141 7 1 0); (7, mkH KFile 1 (-1) 1 0)] in
+  hget KFile 7 t = Some (mkH KFile 1 (-1) 1 0) /\ aget 50 t = Some (mkH KVs 141 7 1 0) /\
+  fst (h_step (CIssue KVs 7 KFile 41 true 1) (AOk 51) t) = VBad 7 /\
+  fst (h_step (CIssue KVs 7 KFile 41 true 0) (AOk 51) t) = VOk /\
+  In (0, 104) ANIcreate_type_to_tag.
+Proof. vm_compute. repeat split; auto. Qed.
 Example cache_size : ATOM_CACHE_SIZE = 4.
 Proof. exact cache_size_is_4. Qed.
